@@ -151,7 +151,10 @@ def check_adapter_stage(ctx, c, case, side, I, O, matches, is_rc, trim_O, key):
             # nothing removed: the whole read is the kept part, which lowercase upper-cases; with --pair-adapters an
             # unmatched pair is documented to stay unchanged, so both spellings are accepted there
             upper = (O[1], O[2]) == (I[1].upper(), I[2])
-            same = upper or (c["pair_adapters"] and same)
+            if not (c["ads1"] if side == 1 else c["ads2"]):
+                pass   # no adapters were given for this mate: no action applies to it, it must stay exactly as it was
+            else:
+                same = upper or (c["pair_adapters"] and same)
         if not same:
             viol("untouched-without-match", f"no match but adapter stage changed {I[1]!r} -> {O[1]!r}")
         return
